@@ -142,7 +142,8 @@ def _default_order(options):
 
 
 # ---------------------------------------------------------------------------------------------- generators
-def gen_sel(rng, max_nodes=11, max_choices=4, max_opts=4, n_incompat=None, cons_prob=0.0, adversarial=False):
+def gen_sel(rng, max_nodes=11, max_choices=4, max_opts=4, n_incompat=None, cons_prob=0.0, adversarial=False,
+            doomed_prob=0.0):
     """G-sel: mostly valid selection-choice graphs built top-down from the start nodes."""
     n = rng.randint(3, max_nodes)
     n_start = 1 if rng.random() < 0.8 else 2
@@ -206,6 +207,15 @@ def gen_sel(rng, max_nodes=11, max_choices=4, max_opts=4, n_incompat=None, cons_
                 continue
             incompat.append([a, b])
             break
+    # "doomed option" pattern: one option of a choice is incompatible with EVERY option of another choice, so every
+    # vector selecting it has to be corrected (the implementation handles this; it sits inside the K8 guard class)
+    if doomed_prob and rng.random() < doomed_prob and len(sel) >= 2:
+        c1, c2 = rng.sample(sel, 2)
+        if len(c1['options']) >= 2:
+            o = rng.choice(c1['options'])
+            for o2 in c2['options']:
+                if o2 != o and [o, o2] not in incompat and [o2, o] not in incompat:
+                    incompat.append([o, o2])
     cons = []
     if cons_prob and rng.random() < cons_prob and len(sel) >= 2:
         k = rng.randint(2, min(3, len(sel)))
@@ -219,6 +229,24 @@ def gen_sel(rng, max_nodes=11, max_choices=4, max_opts=4, n_incompat=None, cons_
             if s != t and [s, t] not in edges:
                 edges.append([s, t])
     return case
+
+
+def add_doomed_option(rng, case):
+    """make one option of a choice incompatible with every option of another choice (returns a new case or None)"""
+    sel = case['sel']
+    if len(sel) < 2:
+        return None
+    c1, c2 = rng.sample(sel, 2)
+    if len(c1['options']) < 2:
+        return None
+    o = rng.choice(c1['options'][1:] if rng.random() < 0.7 else c1['options'])
+    inc = [list(p) for p in case['incompat']]
+    for o2 in c2['options']:
+        if o2 == o:
+            return None
+        if [o, o2] not in inc and [o2, o] not in inc:
+            inc.append([o, o2])
+    return dict(case, incompat=inc)
 
 
 def potential_nodes(case):
@@ -368,6 +396,30 @@ def shared_option(case):
     return False
 
 
+def option_derives_sibling(case):
+    """K11 guard: an option of a selection choice potentially reaches another option of the same choice"""
+    succ = {}
+    for s, t in case.get('edges', []):
+        succ.setdefault(s, set()).add(t)
+    for sc in case.get('sel', []):
+        succ.setdefault(sc['origin'], set()).add(sc['id'])
+        for o in sc['options']:
+            succ.setdefault(sc['id'], set()).add(o)
+    for sc in case.get('sel', []):
+        for o in sc['options']:
+            seen = set()
+            todo = [o]
+            while todo:
+                x = todo.pop()
+                for y in succ.get(x, ()):
+                    if y not in seen:
+                        seen.add(y)
+                        todo.append(y)
+            if any(o2 in seen for o2 in sc['options'] if o2 != o):
+                return True
+    return False
+
+
 def guards(case):
     """ids of the known-finding classes this case falls into"""
     case = {k: v for k, v in case.items() if not k.startswith('_')}
@@ -382,13 +434,21 @@ def guards(case):
         out.add('K9')
     if shared_option(case):
         out.add('K2')
+    if option_derives_sibling(case):
+        out.add('K11')
     return out
 
 
+def _clause_in(clause, patterns):
+    return any(clause == p or (p.endswith('*') and clause.startswith(p[:-1])) for p in patterns)
+
+
 def match_known(case, fail, known):
+    """a failure is explained by a known finding when the case is in the finding's guard class AND the failing clause is one
+    of the clauses that finding is known to produce (so a different failure in the same class is still a violation)"""
     g = guards(case)
     for k in known:
-        if k.get('guard') in g:
+        if k.get('guard') in g and (not k.get('clauses') or _clause_in(fail.get('clause') or '', k['clauses'])):
             return k
     return None
 
